@@ -71,10 +71,12 @@ def _mods():
       if second:
         s = self.param('s', lambda k: jnp.asarray(0.5, jnp.float32))
         h = h * s + s * s
-      if extra:
+      # reads are tolerant of a collection that was not lifted into a transform (the `variables`
+      # filter of nn.grad): the module then computes what it computes without that collection
+      if extra and (self.is_initializing() or self.has_variable('extra', 'e')):
         e = self.variable('extra', 'e', lambda: jnp.asarray([1.0, -1.0], jnp.float32)).value
         h = h + e * x * x
-      if count:
+      if count and (self.is_initializing() or self.has_variable('cnt', 'c')):
         c = self.variable('cnt', 'c', lambda: jnp.zeros((), jnp.float32))
         if self.is_mutable_collection('cnt'):
           c.value = c.value + 1.0
@@ -297,6 +299,9 @@ def _jvp(res, flags):
   res['samples'].append(dict(api='jvp', flags=list(flags)))
 
 
+VSELS = [True, 'params', ['params', 'extra'], ['params', 'cnt']]
+
+
 def _grad(res, flags):
   import jax
   import jax.numpy as jnp
@@ -305,10 +310,15 @@ def _grad(res, flags):
   seed = int(os.environ.get('VERIF_SEED', '0'))
   for api in ('grad', 'value_and_grad'):
     for has_aux in (False, True):
-      for nprim in (1, 2):
-        for dict_form in (False, True):
+      for nprim, dict_form, vsel in itertools.product((1, 2), (False, True), VSELS):
+        if vsel is not True and (nprim == 2 or dict_form):
+          continue        # the lifting filter is independent of the primal structure
+        if True:
           cfg = dict(api=api, flags=list(flags), has_aux=has_aux, primals=nprim, dict=dict_form)
+          if vsel is not True:
+            cfg['variables'] = vsel
           key = repr(sorted(cfg.items()))
+          sel = lambda c: vsel is True or c == vsel or (isinstance(vsel, list) and c in vsel)
 
           def V(tag, what, **kw):
             core.violation(res, f'{api}-{tag}|{key}', what,
@@ -324,7 +334,9 @@ def _grad(res, flags):
                 return (out, {'aux': out + 1.0}) if has_aux else out
               g = G(flags=flags, name='g')
               f = nn.grad if api == 'grad' else nn.value_and_grad
-              return f(fn, g, *prim, has_aux=has_aux)
+              # (variables are created with everything lifted; the filter is for apply)
+              kw = {} if vsel is True or self.is_initializing() else dict(variables=vsel)
+              return f(fn, g, *prim, has_aux=has_aux, **kw)
 
           res['evals'] += 3
           try:
@@ -333,7 +345,7 @@ def _grad(res, flags):
           except Exception as e:  # noqa
             V('raises', f'{type(e).__name__}: {str(e)[:300]}')
             continue
-          inner = {c: v['g'] for c, v in variables.items()}
+          inner = {c: v['g'] for c, v in variables.items() if sel(c)}
 
           def pure(*p):
             o = (G(flags=flags).apply(inner, *p) * jnp.asarray([1.0, 2.0])).sum()
@@ -353,8 +365,12 @@ def _grad(res, flags):
               for a, b in zip(got_leaves, ref_leaves)):
             V('value', f'nn.{api} differs from jax.{api} of the pure function',
               observed=r, expected=ref)
-          if flags[2] and float(upd['cnt']['g']['c']) != float(variables['cnt']['g']['c']) + 1.0:
+          if flags[2] and sel('cnt') and \
+             float(upd['cnt']['g']['c']) != float(variables['cnt']['g']['c']) + 1.0:
             V('publish-once', 'counter not increased by exactly one')
+          if flags[2] and not sel('cnt') and \
+             float(upd['cnt']['g']['c']) != float(variables['cnt']['g']['c']):
+            V('unlifted-write', 'a collection outside the `variables` filter was updated')
           core.outcome(res, f'{api}:ok')
           res['nontrivial'].append(core.h(key))
   res['samples'].append(dict(api='grad', flags=list(flags)))
